@@ -543,6 +543,15 @@ func runMod1(c *eng.Ctx, cc compCfg) {
 	rnd := c.Rand()
 	lit := ckks.ParametersLiteral{LogN: cc.LogN, LogQ: []int{55, 60, 60, 60, 60, 60, 60, 60, 60, 60, 60, 60, 60, 53}, LogP: []int{61, 61, 61, 61, 61},
 		Xs: ring.Ternary{H: 192}, LogDefaultScale: 45}
+	// half of the cases hand the circuit an input one level above Mod1Parameters.LevelQ (it "drops the level of
+	// ct to LevelQ"), under a prime of another size than the ones the circuit works with
+	above := rnd.Bool()
+	if above {
+		// (the primes the double-angle steps divide by alternate between 58 and 60 bits: a scale built from the
+		// primes of the wrong levels is then off by a visible factor)
+		lit.LogQ = []int{55, 60, 58, 60, 58, 60, 58, 60, 58, 60, 60, 60, 60, 50, 53}
+		c.Count("mod1_inputs_above_LevelQ", 1)
+	}
 	x, err := newCompCtx(lit)
 	if err != nil {
 		c.Inconclusive(err.Error())
